@@ -23,7 +23,6 @@ func init() { register("C09", "other", checkC09) }
 // confirmed safe by reading the code. Keyed by "function|rule" (all undecided obligations of that rule in
 // that function share the reason); an entry that matches no undecided obligation fails the check.
 var c09Triaged = map[string]string{
-	"(ApplicationDefined).Marshal|B-IDX":                  "padding loop rawPacket[12+dataLength+i] with i < paddingSize: rawPacket has MarshalSize() = 12 + dataLength + paddingSize' octets where paddingSize' is the same expression (4 - dataLength%4, or 0 when that is 4) evaluated in MarshalSize; the engine keeps both as convex relations and loses the disjunction (remainder 0 / remainder non-zero) that makes them equal",
 	"(TransportLayerCC).Marshal|B-SLC":                    "prefix sums: payload has pad4(16 + 2*len(PacketChunks) + sum(size(d))) octets with size(d) = 1 for small deltas and 2 otherwise (packetLen); the write cursor advances by 1, plus 1 only for large deltas, i.e. by at most size(d), and a delta of any other type makes delta.Marshal fail before the copy",
 	"(ReceiverEstimatedMaximumBitrate).MarshalTo|T-LOOP":  "floating-point loop `for bitrate >= 1<<18 { bitrate /= 2; exp++ }`: bitrate is clamped to the finite constant 0x3FFFFp+63 before the loop and a NaN fails the loop condition, so the loop runs at most 64 times (the integer engine does not model floats)",
 }
@@ -31,12 +30,13 @@ var c09Triaged = map[string]string{
 func checkC09(c *Ctx) {
 	r := c.Rep
 	p := c.Prog
-	r.Explain = "One clause of the property is decided: 'marshalling the returned packets never panics'. The numeric abstract interpreter evaluates every packet type's Marshal (and rtcp.Marshal / CompoundPacket.Marshal with the member encoders opaque) on an UNCONSTRAINED receiver — every field value and list length, list elements non-nil — which includes every packet a decoder can return (decoders append only fresh, non-nil elements: C01's B-NIL facts). Every index, slice bound (against the length), binary.BigEndian access, nil dereference, division, type assertion, negative make and loop in the reachable universe is an obligation that must be entailed at the instruction; six obligation groups that need prefix-sum, disjunctive or floating-point reasoning are discharged by a frozen table of reasons confirmed by reading (c09Triaged). The other clauses of the property — the re-encoded bytes are accepted again and decode to an equal packet list — relate run-time values of two executions and are NOT decided (the structural part of them is C02-LAY/C05/C16)."
-	r.RuleText = "C09-NOPANIC: B-IDX, B-SLC, B-BIN, B-NIL, B-DIV, B-TAS, B-MAKE, B-CALL, B-PANIC, T-LOOP over the universe of the 15 packet encoders, rtcp.Marshal and CompoundPacket.Marshal. Undecided = failure unless the (function, rule) pair is in c09Triaged."
-	r.Trusted = []string{"go/ssa, VTA call graph", "numeric engine checker/num", "effects analysis (purity of the opaque member encoders in the two datagram-level roots; determinism of the size functions)", "Go's panic conditions", "frozen table c09Triaged (3 entries with reasons)"}
+	r.Explain = "One clause of the property is decided: 'marshalling the returned packets never panics'. The numeric abstract interpreter evaluates every packet type's Marshal (and rtcp.Marshal / CompoundPacket.Marshal with the member encoders opaque) on an UNCONSTRAINED receiver — every field value and list length, list elements non-nil — which includes every packet a decoder can return (decoders append only fresh, non-nil elements: C01's B-NIL facts). Every index, slice bound (against the length), binary.BigEndian access, nil dereference, division, type assertion, negative make and loop in the reachable universe is an obligation that must be entailed at the instruction; slice-bound and binary-access obligations that relate two loops (the size function adds up the element sizes, the encoder advances its cursor by them: SourceDescription, CCFeedbackReport; ApplicationDefined's padding loop against the padding computed again in MarshalSize) are proved by the symbolic-sum engine E3 (cursor = base + prefix sum, buffer = base + full sum of the same per-element term, evaluated from the element encoder and from the size function; for CCFeedbackReport with len(buffer) = MarshalSize() re-established by C05's DET/ALN/LEN rules); two obligation groups that need a per-element case split or floating-point reasoning are discharged by a frozen table of reasons confirmed by reading (c09Triaged). C09-SIZE: every element encoder returns, at its nil-error returns, exactly the number of octets its container reserves for it (symbolic identity between the length of the encoder's result and the size function of the same receiver, or a constant). The other clauses of the property — the re-encoded bytes are accepted again and decode to an equal packet list — relate run-time values of two executions and are NOT decided (the structural part of them is C02-LAY/C05/C16)."
+	r.RuleText = "C09-NOPANIC: B-IDX, B-SLC, B-BIN, B-NIL, B-DIV, B-TAS, B-MAKE, B-CALL, B-PANIC, T-LOOP over the universe of the 15 packet encoders, rtcp.Marshal and CompoundPacket.Marshal; an obligation the numeric engine leaves open is handed to the symbolic-sum engine (B-SLC, B-BIN), then to c09Triaged; undecided = failure. C09-SIZE: len(enc(x)) = size(x) for the 8 pairs of c09SizePairs."
+	r.Trusted = []string{"go/ssa, VTA call graph", "numeric engine checker/num", "effects analysis (purity of the opaque member encoders in the two datagram-level roots; determinism of the size functions)", "symbolic-sum engine checker/sum", "Go's panic conditions", "frozen table c09Triaged (2 entries with reasons)", "table c09SizePairs (which size each container reserves: 8 entries, confirmed by reading the containers)"}
 	r.Assume = []string{
 		fmt.Sprintf("size domain: the re-encoded packet is at most %d octets (a decoded datagram is at most 65535 octets; above that CCFeedbackReport.Marshal does panic: its buffer length is computed in uint16)", c05MaxBytes),
 		"receivers and list elements are non-nil (what decoders produce)",
+		"no slice longer than 2^50; int arithmetic on lengths does not overflow 64 bits",
 	}
 	r.NotCov("that the new bytes are accepted again and decode to an equal packet list (idempotence), and the TransportLayerCC header-consistency condition: equality of run-time values across two executions")
 	r.NotCov("panics inside fmt/reflect themselves")
@@ -136,7 +136,7 @@ func checkC09(c *Ctx) {
 			r.Ok("C09-NOPANIC", key, pos, fmt.Sprintf("%s (entailed in %d context(s))", o.Detail, o.Seen))
 			continue
 		}
-		if o.Rule == "B-SLC" || o.Rule == "B-BIN" {
+		if o.Rule == "B-SLC" || o.Rule == "B-BIN" || o.Rule == "B-IDX" {
 			ok, det := sm.prove(o.In)
 			if os.Getenv("C09_DEBUG") != "" {
 				fmt.Fprintf(os.Stderr, "E3 %s: %v %s\n", key, ok, det)
@@ -257,6 +257,8 @@ func (s *c09Sum) try(se *sum.Engine, in ssa.Instruction) (bool, string) {
 	switch x := in.(type) {
 	case *ssa.Slice:
 		return res.Frame.ProveSlice(x)
+	case *ssa.IndexAddr:
+		return res.Frame.ProveIndex(x)
 	case *ssa.Call:
 		f := x.Common().StaticCallee()
 		if f == nil {
@@ -428,9 +430,14 @@ func c09Sizes(c *Ctx, sm *c09Sum) {
 			}
 			want = w
 		}
-		r.Check(got.Equal(want), "C09-SIZE", key, pos,
-			fmt.Sprintf("len(result) = %s = %s (%s)", got.Key(), strings.TrimPrefix(pr.size, "const:"), pr.why),
-			fmt.Sprintf("len(result) = %s but %s = %s: the container reserves a different number of octets (%s)", got.Key(), strings.TrimPrefix(pr.size, "const:"), want.Key(), pr.why))
+		if got.Equal(want) {
+			r.Ok("C09-SIZE", key, pos, fmt.Sprintf("len(result) = %s = %s (%s)", got.Key(), strings.TrimPrefix(pr.size, "const:"), pr.why))
+		} else if got.IsConst() && want.IsConst() {
+			r.Bad("C09-SIZE", key, pos, fmt.Sprintf("the encoder returns %d octets, its container reserves %d (%s)", got.C, want.C, pr.why))
+		} else {
+			// different normal forms are not a proof of different values: reported as undecided
+			r.Unk("C09-SIZE", key, pos, fmt.Sprintf("not shown equal: len(result) = %s, %s = %s (%s)", got.Key(), strings.TrimPrefix(pr.size, "const:"), want.Key(), pr.why))
+		}
 	}
 	r.Floor("C09-SIZE", len(c09SizePairs))
 }
